@@ -154,7 +154,9 @@ fn stress(emitters: usize, n: usize, mode: &str) -> String {
     } else {
         drop(handle);
     }
-    for h in hs { let _ = h.join(); }
+    // an emission must never panic: after recovery / handle drop it is ignored and yields an inert handle
+    let panicked = hs.into_iter().map(|h| h.join()).filter(|r| r.is_err()).count();
+    if panicked != 0 { bad.push(format!("{} emitting thread(s) panicked inside the wrapper (an emission racing recovery / handle drop must be ignored, not panic)", panicked)); }
     OWNER_STARTED.store(false, SeqCst);
     if late.load(SeqCst) { bad.push("a call entered the recorder after it had been dropped".into()); }
     if WRONG.swap(0, SeqCst) != 0 { bad.push("an emission reached the wrapped recorder through a different method than the one called".into()); }
